@@ -191,7 +191,9 @@ def run_one(chk, bindir, scen, k=None, errno=None, tag="dry", value=None, call=N
     try:
         rc, so, se, ev = SJ.run_traced(cmd, log, rules=rules, timeout=25)
     finally:
-        shutil.rmtree(root, ignore_errors=True)
+        # (rm copes with the 2 000-level directory trees of the extreme-path scenarios, shutil does not)
+        import subprocess
+        subprocess.run(["rm", "-rf", root], stdout=subprocess.DEVNULL, stderr=subprocess.DEVNULL)
     res = None
     for line in so.splitlines():
         try:
@@ -278,11 +280,12 @@ def run(tier):
     mc = model_check(chk, tier)
     fixed_vecs, pinned_vecs = algorithm_models(chk)
     scens = scenarios(bindir)
-    boundary = {x for x in scens if x.startswith("wrongkind_") or "_peer_" in x or "_pathlen_" in x or "_entries_" in x or "_buf_" in x or x.endswith(("_empty", "_large", "_zero_buf"))}
+    boundary = {x for x in scens if x.startswith(("wrongkind_", "extreme_")) or "_peer_" in x or "_pathlen_" in x or "_entries_" in x or "_buf_" in x or x.endswith(("_empty", "_large", "_zero_buf"))}
     # 1. dry runs: the calls each scenario performs
     plan = []
     dry = {}
     skipped = []
+    sampled = {}
     with ThreadPoolExecutor(max_workers=8) as ex:
         for s, r in zip(scens, ex.map(lambda s: run_one(chk, bindir, s), scens)):
             evs, calls, status, _, fm = window(r)
@@ -293,7 +296,18 @@ def run(tier):
             dry[s] = (r, evs, calls)
             plan.append({"scenario": s, "k": None, "errno": None})
             special = special_errnos(s)
+            # an operation that issues a great many calls (create_dir_all over a 2 000-component path):
+            # the first ten, the last five and an evenly spaced sample of the calls in between are failed
+            ks = [c["k"] for c in calls]
+            if len(ks) > 40:
+                step = max(1, len(ks) // 15)
+                keep_k = set(ks[:10]) | set(ks[-5:]) | set(ks[::step])
+                sampled[s] = {"calls": len(ks), "failed": len(keep_k)}
+            else:
+                keep_k = set(ks)
             for c in calls:
+                if c["k"] not in keep_k:
+                    continue
                 names = [TYPICAL.get(c["name"], "EINVAL")]
                 if c["phase"] == "op":
                     # the errnos the operation's own source special-cases (errno-specific arms such as
@@ -326,7 +340,7 @@ def run(tier):
         calls = dry[s][2]
         plan.append({"scenario": s, "k": None, "errno": None, "prior": "0"})
         plan.append({"scenario": s, "k": None, "errno": None, "prior": "012"})
-        for c in calls:
+        for c in calls[:40]:
             if c["phase"] == "op" and (tier != "quick" or s not in boundary):
                 n = TYPICAL.get(c["name"], "EINVAL")
                 plan.append({"scenario": s, "k": c["k"], "errno": errno_nr(n), "errname": n, "call": c["name"], "phase": "op", "prior": "012"})
@@ -479,7 +493,7 @@ def run(tier):
         "values whose descriptors the API does not expose (Directory, listeners, EpollDriver) are judged after the driver dropped them",
         "not reached: descriptors received via SCM_RIGHTS (C16), io_uring registered files, the child side of spawn (C13)",
     ]
-    chk.extra.update({"scenarios": len(scens), "scenarios_skipped": skipped, "plan_items": len(plan), "windows_judged": len(verdicts),
+    chk.extra.update({"scenarios": len(scens), "scenarios_skipped": skipped, "scenarios_with_sampled_fault_positions": sampled, "plan_items": len(plan), "windows_judged": len(verdicts),
                       "faults_not_delivered": not_hit, "incomplete_windows": incomplete[:20], "incomplete_count": len(incomplete),
                       "model_vs_proc_drift": drift[:10], "model_checking": mc,
                       "calls_per_scenario": {s: [c["name"] + ("" if c["phase"] == "op" else "(drop)") for c in dry[s][2]] for s in scens}})
